@@ -8,6 +8,10 @@ package gi
 // return-from / go marker an evaluation hands back: nothing more is evaluated
 // and the marker is the function's result.
 //@ every-function gi forward-exits
+// C01, package-wide: the forms of a function's own argument list are evaluated
+// left to right and none of them twice (iteration constructs fail this by
+// design; they are reported undecided, never claimed).
+//@ every-function gi eval-once
 // C05, package-wide (thorough tier): no function makes a number that existed
 // when it was entered the target of a mutating math/big method.
 //@ every-function gi operands-kept
